@@ -369,16 +369,18 @@ where
         worker_hint: Option<WorkerId>,
         worker_pool: &HashMap<WorkerId, WorkerProperties<TKey, TMsg>>,
     ) -> Option<WorkerId> {
-        // check sticky first
+        // check sticky first: the worker that has this key in flight OR still queued (a job whose hand-over
+        // to a closed worker failed waits at the head of that worker's queue for the replacement: the key
+        // must stay with that worker, or the replacement would run it next to another worker)
         if let Some(worker) = worker_hint.and_then(|worker| worker_pool.get(&worker)) {
-            if worker.is_processing_key(&job.key) {
+            if worker.has_pending_key(&job.key) {
                 return worker_hint;
             }
         }
 
         let maybe_worker = worker_pool
             .iter()
-            .find(|(_, worker)| worker.is_processing_key(&job.key))
+            .find(|(_, worker)| worker.has_pending_key(&job.key))
             .map(|(a, _)| *a);
         if maybe_worker.is_some() {
             return maybe_worker;
